@@ -6,6 +6,7 @@ import (
 	"fmt"
 	"math"
 	"math/rand"
+	"regexp"
 	"strconv"
 	"strings"
 	"time"
@@ -431,10 +432,19 @@ func ratPair(v float64) []int {
 	return []int{r["n"].(int), r["d"].(int)}
 }
 
+// reText: the text of the compiled expression a regex position carries (anchored for matchers, as written for line
+// filters), empty where there is none.
+func reText(re *regexp.Regexp) []int {
+	if re == nil {
+		return []int{}
+	}
+	return B(re.String())
+}
+
 func wireMatchers(ms []logql.LabelMatcher) []F {
 	out := []F{}
 	for _, m := range ms {
-		out = append(out, F{"label": B(string(m.Label)), "op": wireOp(m.Op), "val": B(m.Value)})
+		out = append(out, F{"label": B(string(m.Label)), "op": wireOp(m.Op), "val": B(m.Value), "re": reText(m.Re)})
 	}
 	return out
 }
@@ -454,7 +464,7 @@ func wirePred(p logql.LabelPredicate) F {
 	case *logql.LabelPredicateBinOp:
 		return F{"t": wireOp(p.Op), "a": wirePred(p.Left), "b": wirePred(p.Right)}
 	case *logql.LabelMatcher:
-		return F{"t": "m", "label": B(string(p.Label)), "op": wireOp(p.Op), "val": B(p.Value)}
+		return F{"t": "m", "label": B(string(p.Label)), "op": wireOp(p.Op), "val": B(p.Value), "re": reText(p.Re)}
 	case *logql.NumberFilter:
 		return F{"t": "num", "label": B(string(p.Label)), "op": wireOp(p.Op), "val": ratPair(p.Value)}
 	case *logql.DurationFilter:
@@ -475,7 +485,7 @@ func wireStages(stages []logql.PipelineStage) []F {
 			if st.IP {
 				out = append(out, F{"t": "lineip", "op": wireOp(st.Op), "val": B(st.Value)})
 			} else {
-				out = append(out, F{"t": "line", "op": wireOp(st.Op), "val": B(st.Value)})
+				out = append(out, F{"t": "line", "op": wireOp(st.Op), "val": B(st.Value), "re": reText(st.Re)})
 			}
 		case *logql.LabelFilter:
 			out = append(out, F{"t": "label", "pred": wirePred(st.Pred)})
